@@ -281,7 +281,21 @@ def check_uns(chk, rep, repo):
            "the normalised cut is finite and >= 0: the start value must be FLOAT_MAX (or best_k pre-set to min_k)",
            line=li.line)
     stop = ("cmp", "!=", *sorted([("const", 0.0), ("phi", li.lid, bs.best)], key=repr))
-    okg = bs.outer_guards in ([stop], [])
+    # (a candidate whose cut is NaN or infinite may be skipped: the cut is a sum of non-negative ratios, so a non-finite
+    # value is NaN or +inf and never below the running minimum)
+    from ..ir import mk_not
+
+    def harmless(t):
+        if t[0] == "or":
+            return all(harmless(u) for u in t[1])
+        if t[0] == "and":
+            return any(harmless(u) for u in t[1])
+        if t[0] == "call" and t[1] in (("mod", "numpy.isnan"), ("mod", "math.isnan"), ("mod", "numpy.isinf"), ("mod", "math.isinf")):
+            return t[2] == (bs.cand,) and not t[3]
+        if t[0] == "not" and t[1][0] == "call" and t[1][1] in (("mod", "numpy.isfinite"), ("mod", "math.isfinite")):
+            return t[1][2] == (bs.cand,) and not t[1][3]
+        return False
+    okg = [g for g in bs.outer_guards if not harmless(mk_not(g))] in ([stop], [])
     rep.fn("BEST-early-stop", fn, "a candidate is evaluated iff the best cut so far is != 0", okg,
            f"guards around the evaluation: {[show(g)[:80] for g in bs.outer_guards]}", line=li.line)
     # model built with k before the criterion
